@@ -23,8 +23,8 @@ package alpine
 //@ func compareSuffixes
 //@   comparator a ~ b                                     [C01]
 //@   ensures no-suffix-is-distinct: (a.name == "") != (b.name == "") ==> result != 0   [C01]
-//@   ensures rank: rankOf(a.name) != rankOf(b.name) ==> result == (rankOf(a.name) < rankOf(b.name) ? -1 : 1)   [C14]
-//@   ensures number: rankOf(a.name) == rankOf(b.name) && has(suffixOrder, a.name) ==> result == (a.number < b.number ? -1 : (a.number > b.number ? 1 : 0))   [C14]
+//@   ensures rank: rankOf(a.name) != rankOf(b.name) ==> result == (rankOf(a.name) < rankOf(b.name) ? -1 : 1)   [C03 C14]
+//@   ensures number: rankOf(a.name) == rankOf(b.name) && has(suffixOrder, a.name) ==> result == (a.number < b.number ? -1 : (a.number > b.number ? 1 : 0))   [C03 C14]
 
 // Parsed suffixes always carry a name ([a-z]+), so the empty name only stands for "no suffix".
 //@ spec namedSuffixes(a []suffix) bool = forall i int :: 0 <= i && i < len(a) ==> a[i].name != ""
@@ -35,8 +35,8 @@ package alpine
 //@ func compareSuffixArrays
 //@   comparator a ~ b where namedSuffixes(a) && namedSuffixes(b)   [C01]
 //@   ensures first-difference: forall k int :: 0 <= k && k < len(a) && k < len(b) && (forall j int :: 0 <= j && j < k ==> compareSuffixes(a[j], b[j]) == 0) && compareSuffixes(a[k], b[k]) != 0 ==> result == compareSuffixes(a[k], b[k])   [C14]
-//@   ensures extra-suffix: len(a) > len(b) && (forall j int :: 0 <= j && j < len(b) ==> compareSuffixes(a[j], b[j]) == 0) ==> result == compareSuffixes(a[len(b)], noSuffix())   [C14]   // an additional pre-release suffix is older, an additional post-release suffix newer
-//@   ensures extra-suffix-r: len(b) > len(a) && (forall j int :: 0 <= j && j < len(a) ==> compareSuffixes(a[j], b[j]) == 0) ==> result == compareSuffixes(noSuffix(), b[len(a)])   [C14]
+//@   ensures extra-suffix: len(a) > len(b) && (forall j int :: 0 <= j && j < len(b) ==> compareSuffixes(a[j], b[j]) == 0) ==> result == compareSuffixes(a[len(b)], noSuffix())   [C03 C14]   // an additional pre-release suffix is older, an additional post-release suffix newer
+//@   ensures extra-suffix-r: len(b) > len(a) && (forall j int :: 0 <= j && j < len(a) ==> compareSuffixes(a[j], b[j]) == 0) ==> result == compareSuffixes(noSuffix(), b[len(a)])   [C03 C14]
 //@   ensures equal: len(a) == len(b) && (forall j int :: 0 <= j && j < len(a) ==> compareSuffixes(a[j], b[j]) == 0) ==> result == 0   [C14]
 
 //@ func hasLeadingZero
@@ -61,9 +61,9 @@ package alpine
 
 //@ func (*Version).Compare
 //@   comparator v ~ other where wf(v) && wf(other)        [C01]
-//@   ensures numeric: v.numeric != nil && other.numeric != nil && compareNumericArraysNumeric(v.numeric, other.numeric) != 0 ==> result == compareNumericArraysNumeric(v.numeric, other.numeric)   [C14]
+//@   ensures numeric: v.numeric != nil && other.numeric != nil && compareNumericArraysNumeric(v.numeric, other.numeric) != 0 ==> result == compareNumericArraysNumeric(v.numeric, other.numeric)   [C03 C14]
 //@   ensures letter: v.numeric != nil && other.numeric != nil && compareNumericArraysNumeric(v.numeric, other.numeric) == 0 && compareLetters(v.letter, other.letter) != 0 ==> result == compareLetters(v.letter, other.letter)   [C14]
-//@   ensures suffixes: v.numeric != nil && other.numeric != nil && compareNumericArraysNumeric(v.numeric, other.numeric) == 0 && compareLetters(v.letter, other.letter) == 0 && compareSuffixArrays(v.suffixes, other.suffixes) != 0 ==> result == compareSuffixArrays(v.suffixes, other.suffixes)   [C14]
+//@   ensures suffixes: v.numeric != nil && other.numeric != nil && compareNumericArraysNumeric(v.numeric, other.numeric) == 0 && compareLetters(v.letter, other.letter) == 0 && compareSuffixArrays(v.suffixes, other.suffixes) != 0 ==> result == compareSuffixArrays(v.suffixes, other.suffixes)   [C03 C14]
 //@   ensures revision: v.numeric != nil && other.numeric != nil && compareNumericArraysNumeric(v.numeric, other.numeric) == 0 && compareLetters(v.letter, other.letter) == 0 && compareSuffixArrays(v.suffixes, other.suffixes) == 0 && v.hash == other.hash ==> result == (v.build < other.build ? -1 : (v.build > other.build ? 1 : 0))   [C14]
 
 // ---- constructors: value xor error (C06); the fact is structural (untagged) because callers rely on it
